@@ -40,6 +40,24 @@ claims = {
          "or is exempt with a reason; cache ids are GarbleActionID or domain-separated derivations with matching writers and readers; GarbleActionID has one definition; -V=full is answered through addGarbleToHash; "
          "the linker stamp is written and compared with the same operands and covers every patch file. Decides these clauses, not the completeness of cmd/go's own action IDs.",
          "configuration read-set vs. hashed-set analysis (call-graph region, SCCP-style specialisation, backward slices) on go/ssa", "4 C06"),
+ "C05": ("Decides the operator-algebra and pairing clauses: the encode table (evalOperator) and the emitted-decode table (operatorToReversedBinaryExpr) are read off SSA and proved inverse exhaustively over 256x256 byte pairs per token; "
+         "every operator randOperator draws is in both tables and unknown ones panic; every draw reaches one encode and its matching emitted decode; the ext-key statement list is reversed; the size window [8,2048] is used by all three guards; "
+         "the obfuscator skips exactly nosplit/const/-X subtrees. States plainly that it decides this clause, not decode(encode(x)) = x for any obfuscator.",
+         "table extraction from go/ssa + exhaustive evaluation over bytes; def-use pairing of operator draws", "4 C05"),
+ "C12": ("Decides what each name's salt may depend on, by constant-propagating flagSeed.present() = true/false through the salt functions and slicing the salt handed to hashWithCustomSalt: seeded -> import path (+separator) / struct identity only and no configuration read "
+         "by anything reachable; unseeded -> GarbleActionID / addGarbleToHash(struct identity) with addGarbleToHash covering binary id, GOGARBLE, -literals, -tiny, controlflow; hash input salt,seed,name; runtime magic/entry key split the same way; short seeds rejected. "
+         "Decides dependencies, not that names actually differ.",
+         "SCCP-style specialisation + backward dependence slices + configuration read sets on go/ssa", "4 C12"),
+ "C14": ("Decides the guard clauses: ToObfuscate has a single decision point behind the runtime/cgo/fips140/empty exclusions; the no-match rejection is exactly mainBuild && !anyToObfuscate && !matches(runtime) and dominates every success return; "
+         "all 21 hashWithPackage and 5 hashWithStruct call sites, literals.Obfuscate and printFile's directives run only under ToObfuscate of their own package value (access-path equality; closures at creation, helpers at all call sites) or are in the reviewed list; GOGARBLE is hashed. "
+         "Decides these clauses, not the behaviour of mixed programs.",
+         "dominance by edge facts over access paths (go/ssa), interprocedural through closures and helpers", "4 C14"),
+ "C17": ("Decides lock typestate of the patched linker (Lock dominates stamp read/patch/build/stamp write; error returns leave the flag clear so the deferred function unlocks; success returns set it and return unlock; no early unlock; caller defers unlock before running the linker), "
+         "that every file visible to other garble processes is created O_EXCL/unique, under the linker lock, or via the cache API (one reviewed in-place rewrite), and that garble has no goroutines (positive control). Decides these clauses, not any interleaving.",
+         "typestate/dominance on go/ssa + filesystem-effect enumeration", "4 C17"),
+ "C18": ("Decides ordering clauses: stamp written only on the nil edge of buildLinker; reuse guarded by stamp+file+size; every path to buildLinker has a mismatching stamp or removes stamp first (path enumeration, const-trip loops); "
+         "the shared dir is a fresh MkdirTemp per command; all writes under the cache dir are PutBytes or the linker under its lock. Decides these clauses, not the effect of a kill at any instant.",
+         "path enumeration and dominance on go/ssa + filesystem-effect enumeration", "4 C18"),
 }
 
 checks = []
